@@ -472,7 +472,19 @@ func evalObject(node *jparse.ObjectNode, data reflect.Value, env *environment) (
 			}
 		}
 
-		value, err := eval(node.Pairs[idx.pair][1], items, env)
+		// The value expression is evaluated in the context of
+		// the items grouped under the key. A single item is
+		// the context itself, not an array of one item.
+		context := items
+		if items.Len() == 1 {
+			context = items.Index(0)
+			if context.Kind() == reflect.Interface && context.IsNil() {
+				// There was nothing to group.
+				context = undefined
+			}
+		}
+
+		value, err := eval(node.Pairs[idx.pair][1], context, env)
 		if err != nil {
 			return undefined, err
 		}
